@@ -15,6 +15,7 @@
 from .worker import Worker, WorkerType, WorkerTerminatedError
 
 import os
+import time
 import queue
 import logging
 import threading
@@ -30,6 +31,7 @@ class ProcessWorker(Worker):
         self._comms = Pipe()
         self._ctrl_comms = Pipe()
         self._is_child = False
+        self._early_msg = None # final message of the child received while waiting for it to exit, see wait
         super().__init__(*args, **kwargs)
         assert not self.is_child
         self._comms.child_end.close()
@@ -73,6 +75,17 @@ class ProcessWorker(Worker):
             raise ValueError('A worker cannot wait for itself')
         if not self.is_alive():
             return True
+        # The child sends its result right before it exits. A result which does not fit into the pipe's buffer keeps
+        # the child blocked until we start reading, so waiting for the exit alone would never end: wait for whichever comes first.
+        deadline = None if timeout is None else time.monotonic() + timeout
+        ready = mp.connection.wait([self._comms.parent_end, self._child.sentinel], timeout)
+        if self._comms.parent_end in ready:
+            try:
+                self._early_msg = self._comms.parent_end.get()
+            except Exception: # EOF or a message which cannot be received, both are handled by _get_result
+                pass
+        if deadline is not None:
+            timeout = max(0, deadline - time.monotonic())
         self._child.join(timeout)
         alive = self._child.is_alive()
         if not alive:
@@ -122,6 +135,7 @@ class ProcessWorker(Worker):
         if self._result is None:
             #assert not self._comms[0].empty()
             #self._comms.child_end.close()
+            self._result = self._early_msg
             while True:
                 try:
                     self._result = self._comms.parent_end.get()
